@@ -144,3 +144,153 @@ def find_nodes(g, prod_ref, pred):
             walk(kid)
     walk(g.body_of(prod_ref))
     return out
+
+
+# ------------------------------------------------------------------------------------------------
+# entry counts (work semantics): how often nom *enters* a parser at a position during one run of
+# the root, with no memoisation and failed alternatives included. Counts are small saturating
+# bit-vectors, so "some production is entered more than T times at one position" is cheap to decide.
+
+def work_edges(run, node, i):
+    """yield (kid, j, cond): every time (node, i) is entered, (kid, j) is entered once when cond"""
+    k = node.kind
+    g = run.g
+    if k == "ref":
+        yield (g.body_of(node), i, True)
+    elif k in ("map", "recognize", "take_until", "take_except", "verify", "opt", "peek", "not", "all_consuming"):
+        yield (node.kids[0], i, True)
+    elif k == "seq":
+        cur = {i: True}
+        for kid in node.kids:
+            nxt = {}
+            for j, cj in cur.items():
+                yield (kid, j, cj)
+                for e, ce in run.ends(kid, j).items():
+                    v = And(cj, ce)
+                    if v is not False:
+                        nxt[e] = Or(nxt.get(e, False), v)
+            cur = nxt
+    elif k == "alt":
+        none_before = True
+        for kid in node.kids:
+            yield (kid, i, none_before)
+            none_before = And(none_before, Not(run.ends(kid, i).ok()))
+            if none_before is False:
+                break
+    elif k in ("many0", "many1"):
+        kid = node.kids[0]
+        heads = {i: True}
+        for j in range(i, run.L + 1):
+            h = heads.pop(j, False)
+            if h is False:
+                continue
+            yield (kid, j, h)
+            for e, ce in run.ends(kid, j).items():
+                if e > j:
+                    heads[e] = Or(heads.get(e, False), And(h, ce))
+    elif k in ("separated_list0", "separated_list1"):
+        sep, f = node.kids
+        yield (f, i, True)
+        heads = {}
+        for e, ce in run.ends(f, i).items():
+            heads[e] = Or(heads.get(e, False), ce)
+        for j in range(i, run.L + 1):
+            h = heads.pop(j, False)
+            if h is False:
+                continue
+            yield (sep, j, h)
+            for e, cs in run.ends(sep, j).items():
+                if e == j:
+                    continue
+                yield (f, e, And(h, cs))
+                for m, cf in run.ends(f, e).items():
+                    heads[m] = Or(heads.get(m, False), And(h, cs, cf))
+    elif k in ("tag", "tag_nc", "class0", "class1", "one", "eof"):
+        pass
+    else:
+        raise nomsem.Unsupported("work edges through %s" % k)
+
+
+def _key(node, i):
+    # all sites of one production share their entries: the count is per (production, position)
+    return (("P",) + tuple(node.arg), i) if node.kind == "ref" else (node.id, i)
+
+
+def entry_counts(run, root, start=0, bits=5):
+    """-> dict key -> (node, count) with count an int or BitVec(bits) saturating at 2^bits - 1"""
+    import z3
+    cap = (1 << bits) - 1
+    edges, nodes, indeg = {}, {}, {}
+    rk = _key(root, start)
+    nodes[rk] = (root, start)
+    stack = [rk]
+    while stack:
+        key = stack.pop()
+        node, i = nodes[key]
+        outs = []
+        for kid, j, c in work_edges(run, node, i):
+            if c is False:
+                continue
+            ck = _key(kid, j)
+            outs.append((ck, c))
+            indeg[ck] = indeg.get(ck, 0) + 1
+            if ck not in nodes:
+                nodes[ck] = (kid, j)
+                stack.append(ck)
+        edges[key] = outs
+
+    def sat_add(a, b):
+        if isinstance(a, int) and isinstance(b, int):
+            return min(cap, a + b)
+        if isinstance(a, int):
+            a = z3.BitVecVal(a, bits)
+        if isinstance(b, int):
+            b = z3.BitVecVal(b, bits)
+        s = z3.ZeroExt(1, a) + z3.ZeroExt(1, b)
+        return z3.If(z3.UGT(s, cap), z3.BitVecVal(cap, bits), z3.Extract(bits - 1, 0, s))
+
+    def gate(c, n):
+        if c is True:
+            return n
+        if isinstance(n, int):
+            if n == 0:
+                return 0
+            n = z3.BitVecVal(n, bits)
+        return z3.If(c, n, z3.BitVecVal(0, bits))
+
+    cnt = {rk: 1}
+    ready = [rk]
+    done = 0
+    while ready:
+        key = ready.pop()
+        done += 1
+        n = cnt.get(key, 0)
+        for ck, c in edges[key]:
+            cnt[ck] = sat_add(cnt.get(ck, 0), gate(c, n))
+            indeg[ck] -= 1
+            if indeg[ck] == 0:
+                ready.append(ck)
+    if done != len(nodes):
+        raise nomsem.Unsupported("cyclic invocation graph")
+    return {k: (nodes[k][0], nodes[k][1], c) for k, c in cnt.items()}
+
+
+def production_counts(run, root, start=0, bits=5):
+    """entries per (production name, position)"""
+    out = {}
+    for k, (node, i, c) in entry_counts(run, root, start, bits).items():
+        if node.kind == "ref":
+            out[(node.arg[1], i)] = c
+    return out
+
+
+def concrete_total_entries(g, root, s):
+    """for replay: exact (unsaturated) number of entries per production name on a concrete input"""
+    from . import sym as _sym
+    run = nomsem.Run(g, _sym.Input.concrete(s))
+    tot = {}
+    for (name, i), c in production_counts(run, root, 0, bits=40).items():
+        if not isinstance(c, int):
+            raise nomsem.Unsupported("symbolic count on concrete input")
+        tot[name] = tot.get(name, 0) + c
+    return tot
